@@ -290,6 +290,11 @@ def finding_for(m) -> str | None:
         return "D57"
     # D56: the first pass joined a bare footnote label line with its indented continuation into a definition
     from harness import corpus as _corpus
+    if _corpus.d56_trigger(m["src"]):
+        # ... or the label stays alone on its line (narrow widths) and the passes differ only inside the block that starts with a label
+        b1, b2 = m["pass1"].split("\n\n"), m["pass2"].split("\n\n")
+        if len(b1) == len(b2) and all(x == y or re.match(r"[ >]*\[\^[^\]\n]+\]:", x) for x, y in zip(b1, b2)):
+            return "D56"
     if _corpus.d56_trigger(m["src"]) and not _corpus.d56_trigger(m["pass1"]):
         try:
             f0, f1 = project.flat(project.parse_marko(m["src"])), project.flat(project.parse_marko(m["pass1"]))
